@@ -18,7 +18,7 @@ func init() {
 	register(&Check{
 		ID: "C08", Level: "exploration", Primary: "cells", EvalCount: "connections_checked",
 		Rule: "matrix: connection endings {client FIN, client RST, Unbind, malformed frame, unsupported operation, mid-frame disconnect, read-timeout expiry, recovered panic in an inline (unbind-route) handler, " +
-			"recovered panic in a request-goroutine handler followed by FIN, server Stop} x in-flight states {no handler, k handlers parked on a harness gate, handlers writing large responses, slow requests sent in the same write as the ending (dispatched just before the connection ends), the inline StartTLS handler blocked in a handshake the client never completes (plain transport; endings FIN, RST, read timeout, Stop)} x transports {plain, TLS listener, " +
+			"recovered panic in a request-goroutine handler followed by FIN, server Stop} x in-flight states {no handler, k handlers parked on a harness gate (with distinct message IDs, and all with the same one), handlers writing large responses, slow requests sent in the same write as the ending (dispatched just before the connection ends), the inline StartTLS handler blocked in a handshake the client never completes (plain transport; endings FIN, RST, read timeout, Stop)} x transports {plain, TLS listener, " +
 			"StartTLS-upgraded}; every connection first makes one verified round trip (this maps the client socket to its ConnectionID). For endings where the client stays connected the gate is opened only after the " +
 			"client has watched its socket for a grace period: an EOF seen before the release is a certain violation. Offline oracle over the event log per connection ID: exactly one OnClose, stamped after " +
 			"the exit of every handler of that connection; at quiescence no goroutine with a gldap frame and no socket descriptor remain. distinct_nontrivial = distinct (ending, in-flight, transport) cells exercised",
@@ -111,7 +111,7 @@ func (wd *c08World) register(m *gldap.Mux) {
 }
 
 var c08Endings = []string{"fin", "rst", "unbind", "malformed", "unsupported", "midframe", "readtimeout", "panic-inline", "panic-goroutine+fin", "stop"}
-var c08Inflight = []string{"none", "parked", "writing", "just-dispatched"}
+var c08Inflight = []string{"none", "parked", "parked-same-id", "writing", "just-dispatched"}
 var c08Transports = []string{"plain", "tls", "starttls"}
 
 type c08Cell struct{ Ending, Inflight, Transport string }
@@ -202,6 +202,13 @@ func c08OneCell(c *Ctx, wd *c08World, srv *Srv, cell c08Cell, stopper func()) {
 		for i := 0; i < k; i++ {
 			cl.Send(c08Search(int64(10+i), tag+";park"))
 		}
+	case "parked-same-id":
+		// the client reuses one message ID for all its in-flight requests (its business): they are all handlers of
+		// this connection just the same
+		k = 3
+		for i := 0; i < k; i++ {
+			cl.Send(c08Search(10, tag+";park"))
+		}
 	case "writing":
 		k = 2
 		for i := 0; i < k; i++ {
@@ -291,7 +298,7 @@ func c08OneCell(c *Ctx, wd *c08World, srv *Srv, cell c08Cell, stopper func()) {
 	// 4. watch the socket; the gate opens only after the grace period
 	var releaseSeq int64
 	eofBeforeRelease := false
-	if clientStays && cell.Inflight == "parked" {
+	if clientStays && (cell.Inflight == "parked" || cell.Inflight == "parked-same-id") {
 		watch := 150 * time.Millisecond
 		if cell.Ending == "stop" {
 			// a server-initiated ending: hold the handlers well beyond any plausible internal grace period
